@@ -141,6 +141,7 @@ def install_v2x():
     nu.secure_random = UIDS
     statemachine.datetime = VDateTime
     flows.datetime = VDateTime
+    nu.datetime = VDateTime          # `event_created_at` of emitted events (they reach action contexts when fed back)
     statemachine.deque = CountingDeque
     _installed = True
     return CHOICE, UIDS, _CLOCK
